@@ -41,6 +41,9 @@ def main():
         if a.prop in ("C08", "C13"):
             import clientcheck
             return clientcheck.run(a.prop, a.tier)
+        if a.prop == "C14":
+            import predictcheck
+            return predictcheck.run(a.prop, a.tier)
         print("unknown property %s" % a.prop)
         return 2
     except MachineryError as e:
